@@ -17,6 +17,7 @@ FIXED = [
     (["C16"], "sanitize-leading-zero-after-truncation", "a5e9ed9", "sanitize('00a', max_length=2) = '00' (leading-zero digit segment, not idempotent)"),
     (["C16", "C15"], "sanitize-mismatch (piece of a multi-character separator kept)", "19afd58", "sanitize(value='ab--cd', separator='--', max_length=3) = 'ab-'; sanitize('é0a', separator='--', max_length=1) = '-' (not runs joined by whole separators, not idempotent)"),
     (["C14", "C02"], "environment-changes-output (user git configuration)", "822bc26", "~/.gitconfig with column.ui=always: 'No version tags are reachable from HEAD' on a commit with several tags; tag.sort=-version:refname: '30.3.0' instead of '30.3'; status.showUntrackedFiles=no: untracked file not dirty"),
+    (["C13"], "panic@library/std/src/env.rs", "79a9ee3", "an argument that is not valid UTF-8 (`zerv check $'a\\xffb'`, `--bumped-branch $'\\xff'`) panicked in std::env::args() (exit 101)"),
     (["C13", "C15"], "panic@src/cli/utils/template/functions.rs:prefix", "c28a0f0", "prefix(value='ééééé', length=3) panicked (byte slice)"),
     (["C13", "C15"], "panic@src/cli/utils/template/functions.rs:format_timestamp", "af6e9ec", "format_timestamp(value=.., format='%Q') panicked (chrono Display error)"),
     (["C13", "C15"], "panic@src/cli/utils/template/functions.rs:hash_int", "b434023", "hash_int(value=.., length=1000000, allow_leading_zero=true) panicked (format width)"),
@@ -36,6 +37,19 @@ KNOWN = [
     ("C13", "abort-stack-overflow-in-template-parser",
      "an --output-template of tens of thousands of nested parentheses or chained operators (e.g. '{{ ' + '('*20000 + '1' + ')'*20000 + ' }}', "
      "'{{ 1' + ' + 1'*30000 + ' }}') aborts zerv with a stack overflow (SIGABRT) inside the Tera template parser, which has no depth limit"),
+    ("C13", "panic-in-tera-builtin-get_random",
+     "--output-template '{{ get_random(start=5, end=1) }}' / '{{ get_random(end=0) }}': Tera's built-in get_random panics inside the rand crate "
+     "('cannot sample empty range', exit 101); third-party built-in, reachable through every --output-template"),
+    ("C13", "panic-in-tera-builtin-date",
+     "--output-template '{{ 99999999999999 | date }}' (or `bumped_timestamp | date` with --bumped-timestamp 99999999999999): Tera's built-in date filter "
+     "unwraps an out-of-range timestamp (tera-1.20.1 src/builtins/filters/common.rs, exit 101)"),
+    ("C13", "panic-in-tera-builtin-int",
+     "--output-template '{{ \"zz\" | int(base=1) }}' (any base outside 2..36): Tera's built-in int filter passes the radix to from_str_radix, which panics (exit 101)"),
+    ("C13", "abort-stack-overflow-in-recursive-template-macro",
+     "--output-template '{% macro a() %}{{ self::a() }}{% endmacro a %}{{ self::a() }}': a self-recursive Tera macro overflows the stack (SIGABRT); the engine has no recursion limit"),
+    ("C13", "abort-memory-exhaustion-in-tera-range",
+     "--output-template '{{ range(end=5, step_by=0) }}' never ends and '{% for i in range(end=10000000000) %}' materialises the whole range: Tera's built-in range "
+     "allocates until the process is killed (observed as an allocation-failure abort under the harness's 8 GiB address-space ceiling)"),
     ("C04", "flow-hash-len10-overflow",
      "zerv flow --hash-branch-len 10 fails for every branch whose 10-digit hash exceeds 2^32-1 (e.g. branches a, d, dev, master): "
      "'Failed to parse NNNNNNNNNN: number too large to fit in target type' - the documented length 10 does not work for ~57% of branch names"),
